@@ -1382,20 +1382,101 @@ theorem secondsVal_nonpos {d : Int} (h : d ≤ 0) : secondsVal d ≤ 0 := by
   simp only [Int.zero_mul, Rat.intCast_zero] at h0
   rwa [h0] at this
 
-/-- `timemath.Duration(s)` of a finite `s` whose nanosecond value fits int64 is the truncation
-    of the rounded product -/
+theorem secondsVal_neg (d : Int) : secondsVal (-d) = -(secondsVal d) := by
+  unfold secondsVal
+  rw [Int.neg_tdiv, Int.neg_tmod, Rat.intCast_neg, Rat.intCast_neg, Rat.div_def, Rat.neg_mul,
+    ← Rat.div_def, rnd_neg, ← Rat.neg_add, rnd_neg]
+
+/-- sign of an absolute value, as a case split usable by `rcases` -/
+theorem abs_cases (x : Rat) : (0 ≤ x ∧ x.abs = x) ∨ (x ≤ 0 ∧ x.abs = -x) := by
+  by_cases h : 0 ≤ x
+  · exact Or.inl ⟨h, Rat.abs_of_nonneg h⟩
+  · have h' : x ≤ 0 := by grind
+    exact Or.inr ⟨h', Rat.abs_of_nonpos h'⟩
+
+private theorem secondsVal_arith {D sec n fr Sv η : Rat} (hη0 : 0 ≤ η)
+    (hD : D = sec + n) (h0 : 0 ≤ n) (h1 : n ≤ D)
+    (e1 : (fr - n).abs ≤ n / 9007199254740992 + η)
+    (e2 : (Sv - (sec + fr)).abs ≤ (sec + fr).abs / 9007199254740992 + η) :
+    (Sv - D).abs ≤ D * (3 / 9007199254740992) + 3 * η := by
+  rw [abs_le_iff] at e1 e2
+  rcases abs_cases (sec + fr) with ⟨hs, es⟩ | ⟨hs, es⟩ <;> rw [es] at e2 <;>
+    exact abs_le_iff.2 ⟨by grind, by grind⟩
+
+private theorem secondsVal_err_nonneg {d : Int} (h0 : 0 ≤ d) :
+    (secondsVal d - (d : Rat) / 1000000000).abs ≤
+      (d : Rat) / 1000000000 * (3 / 9007199254740992) + 3 * pow2 (-1075) := by
+  obtain ⟨hsplit, hpos, _, hns⟩ := tdiv_tmod_facts d
+  obtain ⟨hn0, hnd⟩ := hpos h0
+  unfold secondsVal
+  generalize Int.tdiv d 1000000000 = sec at *
+  generalize Int.tmod d 1000000000 = ns at *
+  have hD : (d : Rat) / 1000000000 = (sec : Rat) + (ns : Rat) / 1000000000 := by
+    have : (d : Rat) = ((sec * 1000000000 + ns : Int) : Rat) := by rw [← hsplit]
+    rw [this, Rat.intCast_add, Rat.intCast_mul]; simp only [Rat.intCast_ofNat]; grind
+  have a : ((0 : Int) : Rat) ≤ (ns : Rat) := Rat.intCast_le_intCast.2 hn0
+  have b : (ns : Rat) ≤ (d : Rat) := Rat.intCast_le_intCast.2 hnd
+  rw [Rat.intCast_zero] at a
+  have e1 := rnd_err_gen ((ns : Rat) / 1000000000)
+  have e2 := rnd_err_gen ((sec : Rat) + rnd ((ns : Rat) / 1000000000))
+  rw [show pow2 53 = 9007199254740992 by decide] at e1 e2
+  rw [Rat.abs_of_nonneg (show 0 ≤ (ns : Rat) / 1000000000 by grind)] at e1
+  exact secondsVal_arith (Rat.le_of_lt (pow2_pos _)) hD (by grind) (by grind) e1 e2
+
+/-- error of `Seconds()`: two roundings, relative `3·2^-53` (plus the underflow slack) -/
+theorem secondsVal_err (d : Int) :
+    (secondsVal d - (d : Rat) / 1000000000).abs ≤
+      ((d : Rat) / 1000000000).abs * (3 / 9007199254740992) + 3 * pow2 (-1075) := by
+  by_cases h0 : 0 ≤ d
+  · have h := secondsVal_err_nonneg h0
+    have : 0 ≤ (d : Rat) / 1000000000 := by
+      have : ((0 : Int) : Rat) ≤ (d : Rat) := Rat.intCast_le_intCast.2 h0
+      rw [Rat.intCast_zero] at this; grind
+    rwa [Rat.abs_of_nonneg this]
+  · have h := secondsVal_err_nonneg (d := -d) (by omega)
+    rw [secondsVal_neg, Rat.intCast_neg] at h
+    have hle : (d : Rat) / 1000000000 ≤ 0 := by
+      have : (d : Rat) ≤ ((0 : Int) : Rat) := Rat.intCast_le_intCast.2 (by omega)
+      rw [Rat.intCast_zero] at this; grind
+    rw [Rat.abs_of_nonpos hle]
+    have e : -secondsVal d - -(d : Rat) / 1000000000 = -(secondsVal d - (d : Rat) / 1000000000) := by grind
+    rw [e, Rat.abs_neg] at h
+    grind
+
+theorem secondsVal_abs_le {d : Int} (hd : d.natAbs ≤ 2 ^ 63) : (secondsVal d).abs ≤ 9223372037 := by
+  have h1 := secondsVal_mono (d₁ := d) (d₂ := 9223372037 * 1000000000) (by omega)
+  have h2 := secondsVal_mono (d₁ := -9223372037 * 1000000000) (d₂ := d) (by omega)
+  rw [secondsVal_whole (by decide)] at h1 h2
+  simp only [Rat.intCast_neg, Rat.intCast_ofNat] at h1 h2
+  exact abs_le_iff.2 ⟨h2, h1⟩
+
+theorem abs_mul_of_nonneg_right (x : Rat) {c : Rat} (hc : 0 ≤ c) : (x * c).abs = x.abs * c := by
+  rw [abs_mul, Rat.abs_of_nonneg hc]
+
+/-- the largest double below `2^63` -/
+theorem rep_maxInt64F : Rep 9223372036854774784 := by
+  have := rep_natCast_mul (k := 2 ^ 53 - 1) (K := 10) (by decide) (by decide)
+  rw [show pow2 10 = 1024 by decide] at this
+  have e : ((2 ^ 53 - 1 : Nat) : Rat) * 1024 = 9223372036854774784 := by
+    simp only [Nat.reducePow, Nat.reduceSub, Rat.natCast_ofNat]; grind
+  rwa [e] at this
+
+/-- `timemath.Duration(s)` of a finite `s` whose nanosecond value fits int64 (magnitude at
+    most the largest double below `2^63`) is the truncation of the rounded product -/
 theorem toDuration_val {s : F64} (hs : isFinite s = true)
-    (h : (toRat s * 1000000000).abs ≤ pow2 62) :
+    (h : (toRat s * 1000000000).abs ≤ 9223372036854774784) :
     toDuration s = trunc (rnd (toRat s * 1000000000)) := by
   unfold toDuration
   rw [ofInt_1e9]
+  have hmax : (9223372036854774784 : Rat) ≤ maxFin := by
+    refine Rat.le_trans ?_ (pow2_le_maxFin (K := 63) (by decide))
+    rw [show pow2 63 = 9223372036854775808 by decide]; grind
   obtain ⟨f, v⟩ := toRat_mul hs (show isFinite (.fin 1000000000) = true from rfl)
-    (by rw [toRat_fin]; exact Rat.le_trans h (pow2_le_maxFin (by decide)))
+    (by rw [toRat_fin]; exact Rat.le_trans h hmax)
   rw [toRat_fin] at v
-  have hb := rnd_abs_le_of_rep (rep_pow2 (K := 62) (by decide)) h
-  have := pow2_strictMono (show (62 : Int) < 63 by decide)
-  have := pow2_pos 62
+  have hb := rnd_abs_le_of_rep rep_maxInt64F h
   rw [abs_le_iff] at hb
-  rw [toInt64_eq_trunc f (by rw [v]; grind) (by rw [v]; grind), v]
+  rw [toInt64_eq_trunc f (by rw [v, show pow2 63 = 9223372036854775808 by decide]; grind)
+    (by rw [v, show pow2 63 = 9223372036854775808 by decide]; grind), v]
 
 end ScionTime.F64
